@@ -179,3 +179,15 @@ package handler
 //@   ensures[C15:info-argument] result1 == nil ==> result0.Argument == (rtNumIn(rtOf(fn)) == 2 ? rtIn(rtOf(fn), 1) : nil)
 //@   ensures[C15:info-result] result1 == nil ==> result0.ReportsError == (rtOut(rtOf(fn), rtNumOut(rtOf(fn)) - 1) == errType) && result0.Result == ((rtNumOut(rtOf(fn)) == 2 || !result0.ReportsError) ? rtOut(rtOf(fn), 0) : nil)
 //@   ensures[C15:info-posnames] result1 == nil && result0.Argument != nil && rtKind(structOf(result0.Argument)) == 25 ==> len(result0.posNames) == cntListed(structOf(result0.Argument), rtNumField(structOf(result0.Argument)))
+
+// Positional rejects what it documents as unsupported before building
+// anything: nil, a non-function, no context first, a variadic function with
+// positional parameters, and a name list of the wrong length.
+//@ func Positional
+//@   ensures[C16:positional-rejects] fn == nil || rtKind(rtOf(fn)) != 19 || rtNumIn(rtOf(fn)) == 0 || rtIn(rtOf(fn), 0) != ctxType || (rtNumIn(rtOf(fn)) > 1 && (rtVariadic(rtOf(fn)) || rtNumIn(rtOf(fn)) - 1 != len(names))) ==> result1 != nil && result0 == nil
+//@   ensures[C16:context-only-is-check] fn != nil && rtKind(rtOf(fn)) == 19 && rtNumIn(rtOf(fn)) == 1 && rtIn(rtOf(fn), 0) == ctxType ==> called("call.Check#1") && result0 == callres("call.Check#1", 0, "*FuncInfo") && result1 == callres("call.Check#1", 1, "error")
+//@   ensures[C16:positional-strict-named] result1 == nil && rtNumIn(rtOf(fn)) > 1 ==> result0 != nil && result0.strictFields && result0.posNames == names
+//@ func makeArgType
+//@   requires t != nil
+//@   ensures[C16:name-count] rtNumIn(t) - 1 != len(names) ==> result1 != nil && result0 == nil
+//@   loop 1 invariant cap(fields) == 0 || isnew(ptr(fields))
